@@ -55,6 +55,30 @@ impl<'a> std::io::Write for ChunkWriter<'a> {
     }
 }
 
+/// a writer that takes `left` bytes and then fails (a broken pipe, a full frame)
+pub struct FailingWriter {
+    pub left: usize,
+    pub refused: bool,
+}
+
+impl std::io::Write for FailingWriter {
+    fn write(&mut self, buf: &[u8]) -> std::io::Result<usize> {
+        if buf.is_empty() {
+            return Ok(0);
+        }
+        if self.left == 0 {
+            self.refused = true;
+            return Err(std::io::Error::new(std::io::ErrorKind::BrokenPipe, "writer closed"));
+        }
+        let n = std::cmp::min(self.left, buf.len());
+        self.left -= n;
+        Ok(n)
+    }
+    fn flush(&mut self) -> std::io::Result<()> {
+        Ok(())
+    }
+}
+
 #[derive(Clone, Debug, Serialize, Deserialize, PartialEq, Eq, Hash)]
 pub enum Ty {
     Fr,
@@ -97,6 +121,10 @@ pub struct SerCase {
     pub compressed: bool,
     pub stream: StreamR,
     pub chunks: Vec<u8>,
+    /// first serialize the value into a writer that fails after this many bytes (the error is returned to the
+    /// caller, as a service writing to a socket would see it), then serialize it again into a good writer
+    #[serde(default)]
+    pub fail_first: Option<u16>,
 }
 
 fn subgroup_base() -> BoxedStrategy<BaseR> {
@@ -125,8 +153,9 @@ fn ser_case_strategy() -> BoxedStrategy<SerCase> {
         2 => Just(vec![1u8]),
         3 => proptest::collection::vec(1u8..=64, 1..6),
     ];
-    (ty, fr_strategy(), super::c09::ext_strategy(12), subgroup_base(), rep_strategy(), any::<bool>(), stream, chunks)
-        .prop_map(|(ty, fr, fq12, point, rep, compressed, stream, chunks)| SerCase { ty, fr, fq12, point, rep, compressed, stream, chunks })
+    let fail = prop_oneof![5 => Just(None), 1 => (0u16..600).prop_map(Some)];
+    (ty, fr_strategy(), super::c09::ext_strategy(12), subgroup_base(), rep_strategy(), any::<bool>(), stream, chunks, fail)
+        .prop_map(|(ty, fr, fq12, point, rep, compressed, stream, chunks, fail_first)| SerCase { ty, fr, fq12, point, rep, compressed, stream, chunks, fail_first })
         .boxed()
 }
 
@@ -241,6 +270,14 @@ fn prepare(c: &SerCase, info: &mut Info) -> Result<(Vec<u8>, bool), String> {
             let v = c.fr.fr();
             let mut buf = ChunkWriter { data: vec![], chunks: &c.chunks, i: 0 };
             let e = fr_c(&v);
+            if let Some(k) = c.fail_first {
+                let mut fw = FailingWriter { left: k as usize, refused: false };
+                let r = cr("Fr::serialize (failing writer)", || e.serialize(&mut fw, c.compressed))?;
+                if r.is_ok() && fw.refused {
+                    return Err(format!("Fr::serialize returned Ok although the writer refused data after {} bytes", k));
+                }
+                info.class("serialize-after-a-failed-write");
+            }
             cr("Fr::serialize", || e.serialize(&mut buf, c.compressed))?.map_err(|e| format!("serialize error {}", e))?;
             (buf.data, be_fixed(&v, 32))
         }
@@ -255,6 +292,14 @@ fn prepare(c: &SerCase, info: &mut Info) -> Result<(Vec<u8>, bool), String> {
             }
             let e = fq12_c_tower(&t);
             let mut buf = ChunkWriter { data: vec![], chunks: &c.chunks, i: 0 };
+            if let Some(k) = c.fail_first {
+                let mut fw = FailingWriter { left: k as usize, refused: false };
+                let r = cr("Fq12::serialize (failing writer)", || e.serialize(&mut fw, c.compressed))?;
+                if r.is_ok() && fw.refused {
+                    return Err(format!("Fq12::serialize returned Ok although the writer refused data after {} bytes", k));
+                }
+                info.class("serialize-after-a-failed-write");
+            }
             cr("Fq12::serialize", || e.serialize(&mut buf, c.compressed))?.map_err(|e| format!("serialize error {}", e))?;
             (buf.data, img)
         }
@@ -264,10 +309,26 @@ fn prepare(c: &SerCase, info: &mut Info) -> Result<(Vec<u8>, bool), String> {
             let mut buf = ChunkWriter { data: vec![], chunks: &c.chunks, i: 0 };
             if c.ty == Ty::G1 {
                 let p = rep_build::<G1m>(&pm, &c.rep);
-                cr("G1::serialize", || p.serialize(&mut buf, c.compressed))?.map_err(|e| format!("serialize error {}", e))?;
+                if let Some(k) = c.fail_first {
+                let mut fw = FailingWriter { left: k as usize, refused: false };
+                let r = cr("G1::serialize (failing writer)", || p.serialize(&mut fw, c.compressed))?;
+                if r.is_ok() && fw.refused {
+                    return Err(format!("G1::serialize returned Ok although the writer refused data after {} bytes", k));
+                }
+                info.class("serialize-after-a-failed-write");
+            }
+            cr("G1::serialize", || p.serialize(&mut buf, c.compressed))?.map_err(|e| format!("serialize error {}", e))?;
             } else {
                 let p = aff_c::<G1m>(&pm);
-                cr("G1Affine::serialize", || p.serialize(&mut buf, c.compressed))?.map_err(|e| format!("serialize error {}", e))?;
+                if let Some(k) = c.fail_first {
+                let mut fw = FailingWriter { left: k as usize, refused: false };
+                let r = cr("G1Affine::serialize (failing writer)", || p.serialize(&mut fw, c.compressed))?;
+                if r.is_ok() && fw.refused {
+                    return Err(format!("G1Affine::serialize returned Ok although the writer refused data after {} bytes", k));
+                }
+                info.class("serialize-after-a-failed-write");
+            }
+            cr("G1Affine::serialize", || p.serialize(&mut buf, c.compressed))?.map_err(|e| format!("serialize error {}", e))?;
             }
             (buf.data, img)
         }
@@ -277,10 +338,26 @@ fn prepare(c: &SerCase, info: &mut Info) -> Result<(Vec<u8>, bool), String> {
             let mut buf = ChunkWriter { data: vec![], chunks: &c.chunks, i: 0 };
             if c.ty == Ty::G2 {
                 let p = rep_build::<G2m>(&pm, &c.rep);
-                cr("G2::serialize", || p.serialize(&mut buf, c.compressed))?.map_err(|e| format!("serialize error {}", e))?;
+                if let Some(k) = c.fail_first {
+                let mut fw = FailingWriter { left: k as usize, refused: false };
+                let r = cr("G2::serialize (failing writer)", || p.serialize(&mut fw, c.compressed))?;
+                if r.is_ok() && fw.refused {
+                    return Err(format!("G2::serialize returned Ok although the writer refused data after {} bytes", k));
+                }
+                info.class("serialize-after-a-failed-write");
+            }
+            cr("G2::serialize", || p.serialize(&mut buf, c.compressed))?.map_err(|e| format!("serialize error {}", e))?;
             } else {
                 let p = aff_c::<G2m>(&pm);
-                cr("G2Affine::serialize", || p.serialize(&mut buf, c.compressed))?.map_err(|e| format!("serialize error {}", e))?;
+                if let Some(k) = c.fail_first {
+                let mut fw = FailingWriter { left: k as usize, refused: false };
+                let r = cr("G2Affine::serialize (failing writer)", || p.serialize(&mut fw, c.compressed))?;
+                if r.is_ok() && fw.refused {
+                    return Err(format!("G2Affine::serialize returned Ok although the writer refused data after {} bytes", k));
+                }
+                info.class("serialize-after-a-failed-write");
+            }
+            cr("G2Affine::serialize", || p.serialize(&mut buf, c.compressed))?.map_err(|e| format!("serialize error {}", e))?;
             }
             (buf.data, img)
         }
